@@ -179,6 +179,8 @@ func checkC06(c *Ctx) {
 	checkNOL(c, f)
 	// (i)
 	checkContinuationColumns(c, f)
+	checkRelevantReviewedForms(c, f, "C06.z", "a layout primitive (line-end skipping, columns, offside stack, adjacency)",
+		primSet("psSkipEOL", "psNextNOL", "psCurCol", "psCurOffside", "insideOffside", "isEndOfBlock", "psPushOffside", "psPopOffside", "psNextNonEOLIsBinOp", "psIsNeighborLT", "tkzIsNeighborLT", "tkzNextNOL", "tkzNext"), 30)
 }
 
 func fieldOwner(f *FC, v *types.Var) string {
